@@ -327,7 +327,15 @@ Definition loop_oracle_known (c : loop_case) : bool := o_known (loop_oracle c).
     pattern of fn (calls beyond the list fail), the call of fn during which fn
     itself closes the closer / cancels the context, deterministic?, observed
     number of calls, observed result is nil) *)
-Definition wma_case := (opts * Z * bool * bool * list bool * option (Z * stopper) * bool * Z * bool)%type.
+Definition wma_case := (opts * Z * bool * bool * list bool * option (Z * stopper) * bool * Z * bool * list Z * list (Z * Z))%type.
+(** The two last components are timings, all lower-bound safe:
+    gaps: for call i+1 of fn (i from 0), the time from the end of call i (taken
+      inside fn, before it returns, hence before the back-off is armed) to the
+      start of call i+1: at least the armed delay of back-off i;
+    late: for every call that STARTED after the closer was closed / the context
+      cancelled or expired (completely), (i, g): it follows back-off i, and the
+      stop was complete g ns after the end of the previous call (an upper
+      bound of the time from arming the back-off to the stop). *)
 
 Definition pat (l : list bool) (k : Z) : bool :=
   if k <? 0 then false else nth (Z.to_nat k) l false.
@@ -367,7 +375,7 @@ Fixpoint wma_loop (fuel : nat) (succ : Z -> bool) (stop_at : option (Z * stopper
   end.
 
 Definition wma_model_bad (c : wma_case) : bool :=
-  let '(o, n, c0, x0, p, stop_at, det, calls, isnil) := c in
+  let '(o, n, c0, x0, p, stop_at, det, calls, isnil, gaps, late) := c in
   if negb det then false else
   match wma_loop (Z.to_nat n + 3) (pat p) stop_at (wstart o n c0 x0) with
   | Some w =>
@@ -391,13 +399,35 @@ Fixpoint any_success (p : list bool) (calls : nat) : bool :=
     calls, nil iff a call succeeded, at least one call unless the loop had been
     told to stop before it began (then: no call and an error).
       1 n <= 0 not refused   2 more than n calls   3 nil without a success / error despite one
-      4 no call although not stopped before   5 did not return *)
+      4 no call although not stopped before   5 did not return
+      6 fn called after the loop had been told to stop, the stop complete before the (long) back-off could elapse
+      7 fn called again earlier than the lower edge of the back-off band *)
+Definition spec_lower_at_least (o : opts) (n : Z) (x : Z) : bool :=
+  let c := spec_centre o n in Qle_bool (inject_Z x) (c * (1 - spec_rf o)).
+
+Fixpoint gaps_ok (o : opts) (i : Z) (gaps : list Z) : bool :=
+  match gaps with
+  | [] => true
+  | g :: tl => spec_ge_lower o i g && gaps_ok o (i + 1) tl
+  end.
+
+(** A call after the stop is excusable only by the select race: the timer had
+    fired when the select polled.  If the stop was complete before the back-off
+    could have elapsed ([g] below the lower edge), the select polled — it does so
+    right after the previous call returned — a whole back-off late.  With a
+    lower edge of 300 ms and more that is not the race. *)
+Definition long_wait : Z := 300000000.
+Definition late_bad (o : opts) (p : Z * Z) : bool :=
+  let (i, g) := p in negb (spec_ge_lower o i g) && spec_lower_at_least o i long_wait.
+
 Definition wma_oracle_code (c : wma_case) : N :=
-  let '(o, n, c0, x0, p, stop_at, det, calls, isnil) := c in
+  let '(o, n, c0, x0, p, stop_at, det, calls, isnil, gaps, late) := c in
   if calls <? 0 then 5%N
   else if n <=? 0 then (if (calls =? 0) && negb isnil then 0%N else 1%N)
   else if n <? calls then 2%N
   else if negb (Bool.eqb isnil (any_success p (Z.to_nat calls))) then 3%N
   else if (calls =? 0) && negb (c0 || x0) then 4%N
+  else if negb (gaps_ok o 0 gaps) then 7%N
+  else if existsb (late_bad o) late then 6%N
   else 0%N.
 Definition wma_oracle_bad (c : wma_case) : bool := negb (wma_oracle_code c =? 0)%N.
